@@ -55,6 +55,8 @@ def execute(op):
             return "T:" + mask(W.graph_to_molfile(R.graph_from_molfile_text(inp)))
         if kind == "write_tucan":
             return "T:" + mask(W.graph_to_molfile(P.graph_from_tucan(inp)))
+        if kind == "write_calc":  # the writer's option that (re-)calculates atom positions
+            return "T:" + mask(W.graph_to_molfile(P.graph_from_tucan(inp), True))
         raise ValueError(kind)
     except Exception as e:  # noqa
         return f"E:{type(e).__name__}:{e}"
